@@ -610,3 +610,81 @@ package webrtc
 //@ loop 0 invariant sameptr(s.bindings, old(s.bindings)) && len(s.bindings) == old(len(s.bindings)) && rangeindex < len(s.bindings)
 //@ loop 0 invariant forall k int :: 0 <= k && k < len(s.bindings) ==> s.bindings[k] == old(s.bindings[k])
 //@ loop 0 invariant forall k int :: 0 <= k && k <= rangeindex ==> s.bindings[k].id != ufstr("ctxid")
+
+// ---------------------------------------------------------------- C05 (operations queue)
+// Assumed FIFO contract of container/list over ghost tickets: qtail = number of
+// elements ever pushed, qhead = number ever removed; Len() is their difference;
+// Front() is the oldest element and Remove(Front()) takes ticket qhead.
+//@ func (*list.List).PushBack
+//@ trusted
+//@ ghost qtail += 1
+//@ ensures result != nil
+//@ modifies nothing
+//@ func (*list.List).Len
+//@ trusted
+//@ ensures result == int(ghost(qtail) - ghost(qhead)) && result >= 0
+//@ modifies nothing
+//@ func (*list.List).Front
+//@ trusted
+//@ ensures (result != nil) == (ghost(qtail) != ghost(qhead))
+//@ modifies nothing
+//@ func (*list.List).Remove
+//@ trusted
+//@ ghost qhead += 1
+//@ modifies nothing
+
+//@ field operations.isClosed props C05 writers (*operations).GracefulClose
+//@ field operations.busyCh props C05 writers (*operations).tryEnqueue, (*operations).start$1
+//@ field operations.ops props C05 writers
+
+// spawning a worker is an event (ghost counter qspawns)
+//@ func (*operations).start
+//@ ghost qspawns += 1
+
+// tryEnqueue (caller holds mu): a nil op or a closed queue is refused and nothing
+// changes; otherwise the op gets the next ticket and a worker exists afterwards (one
+// is spawned exactly when there was none).
+//@ func (*operations).tryEnqueue
+//@ props C05
+//@ locked mu
+//@ requires o != nil && o.ops != nil && ghost(qhead) <= ghost(qtail) && ghost(qtail) < 1<<62
+//@ ensures result == (op != nil && !old(o.isClosed))
+//@ ensures !result ==> ghost(qtail) == old(ghost(qtail)) && ghost(qspawns) == old(ghost(qspawns)) && o.busyCh == old(o.busyCh)
+//@ ensures result ==> ghost(qtail) == old(ghost(qtail)) + 1 && o.busyCh != nil
+//@ ensures result && old(o.busyCh) == nil ==> ghost(qspawns) == old(ghost(qspawns)) + 1
+//@ ensures result && old(o.busyCh) != nil ==> ghost(qspawns) == old(ghost(qspawns)) && o.busyCh == old(o.busyCh)
+//@ ensures ghost(qhead) == old(ghost(qhead)) && o.isClosed == old(o.isClosed)
+
+// pop takes the oldest ticket if there is one.
+//@ func (*operations).pop
+//@ props C05
+//@ requires o != nil && o.ops != nil && ghost(qhead) <= ghost(qtail)
+//@ ensures old(ghost(qtail)) == old(ghost(qhead)) ==> result == nil && ghost(qhead) == old(ghost(qhead))
+//@ ensures old(ghost(qtail)) != old(ghost(qhead)) ==> ghost(qhead) == old(ghost(qhead)) + 1
+//@ ensures ghost(qtail) == old(ghost(qtail)) && ghost(qspawns) == old(ghost(qspawns))
+
+// A finishing worker either retires (no work left or closed) or hands over to exactly one new worker.
+//@ func (*operations).start$1
+//@ props C05
+//@ requires o != nil && o.ops != nil && o.busyCh != nil && ghost(qhead) <= ghost(qtail)
+//@ ensures (o.busyCh == nil && ghost(qspawns) == old(ghost(qspawns))) || (o.busyCh != nil && ghost(qspawns) == old(ghost(qspawns)) + 1)
+//@ ensures o.busyCh == nil ==> ghost(qtail) == ghost(qhead) || o.isClosed
+//@ ensures o.busyCh != nil ==> ghost(qtail) != ghost(qhead) && !o.isClosed
+//@ ensures ghost(qtail) == old(ghost(qtail)) && ghost(qhead) == old(ghost(qhead))
+
+// Once closed the queue stays closed and takes no more work.
+//@ func (*operations).GracefulClose
+//@ props C05
+//@ requires o != nil
+//@ ensures o.isClosed && ghost(qtail) == old(ghost(qtail)) && ghost(qspawns) == old(ghost(qspawns))
+
+//@ func (*operations).IsEmpty
+//@ props C05
+//@ requires o != nil && o.ops != nil
+//@ ensures result == (ghost(qtail) == ghost(qhead))
+
+//@ func (*operations).Enqueue
+//@ props C05
+//@ requires o != nil && o.ops != nil && ghost(qhead) <= ghost(qtail) && ghost(qtail) < 1<<62
+//@ ensures (op == nil || old(o.isClosed)) ==> ghost(qtail) == old(ghost(qtail)) && ghost(qspawns) == old(ghost(qspawns))
+//@ ensures op != nil && !old(o.isClosed) ==> ghost(qtail) == old(ghost(qtail)) + 1 && o.busyCh != nil
